@@ -12,8 +12,11 @@ from harness.core import Machinery
 
 NAMES = ['a', 'b', 'c', 'd']
 KINDS = ['try_none', 'try_zero', 'try_back', 'kwargs_support', 'cache', 'loops', 'pd2np']
-CLASS_OF = {'try_none': 'try_value', 'try_zero': 'try_value'}
+BIND_KINDS = KINDS + ['try_list']                   # try_list: a mutable fallback (the caller mutates what it is given)
+CLASS_OF = {'try_none': 'try_value', 'try_zero': 'try_value', 'try_list': 'try_value'}
 NONE = ["n", 0]
+DEFAULTS = {False: {'a': 'da', 'b': 'db', 'c': 'dc', 'd': 'dd'}, True: {'a': 'ea', 'b': 0, 'c': 'ec', 'd': None}}
+MARK = 'the caller owns its result'
 
 
 # ------------------------------------------------------------------------------------------------
@@ -53,24 +56,47 @@ def outcome(fn, *args, **kwargs):
 
 
 def sigkey(sig):
-    return (sig['npos'], sig['ndef'], bool(sig['varargs']), bool(sig['varkw']))
+    return (sig['npos'], sig['ndef'], bool(sig['varargs']), bool(sig['varkw']), bool(sig.get('alt')))
+
+
+def mutate(result):
+    """the caller changes, in place, the object a call returned to it"""
+    if isinstance(result, list):
+        result.append(MARK)
+    elif isinstance(result, dict):
+        result[MARK] = 1
+
+
+def call_and_mutate(fn, *args, **kwargs):
+    """outcome of one call, after which the caller mutates the returned object in place"""
+    try:
+        r = fn(*args, **kwargs)
+    except Exception as e:
+        return ["exc", type(e).__name__]
+    out = tagx(r)
+    mutate(r)
+    return out
 
 
 def base_function(sig, counting=False):
-    """def f(a, b, c='dc', *args, **kw): returns all its bindings; raises ValueError when handed 'bad';
-    counts its evaluations (and returns (bindings, number of this evaluation) when `counting`)"""
+    """def f(a, b, c=_d_c, *args, **kw): returns all its bindings; raises ValueError when handed 'bad', returns
+    None when handed 'quiet'; counts its evaluations (and returns (bindings, number of this evaluation) when
+    `counting`).  The default VALUES come from the namespace, not from the source text: the plain and the
+    `alt` function of one shape have equal code objects and differ only in their defaults."""
     npos, ndef = sig['npos'], sig['ndef']
-    ps = [NAMES[i] if i < npos - ndef else "%s='d%s'" % (NAMES[i], NAMES[i]) for i in range(npos)]
+    ps = [NAMES[i] if i < npos - ndef else "%s=_d_%s" % (NAMES[i], NAMES[i]) for i in range(npos)]
     seen = list(NAMES[:npos])
     items = ["'%s': %s" % (n, n) for n in NAMES[:npos]]
     if sig['varargs']:
         ps.append('*args'); items.append("'args': args"); seen.append('*args')
     if sig['varkw']:
         ps.append('**kw'); items.append("'kw': kw"); seen.append('*kw.values()')
-    src = ('def f(%s):\n    _cnt[0] += 1\n    for _v in (%s):\n        if type(_v) is str and _v == "bad": raise ValueError("bad")\n'
-           '    _r = {%s}\n    return %s\n') % (', '.join(ps), ''.join(s + ', ' for s in seen), ', '.join(items),
-                                              '(_r, _cnt[0])' if counting else '_r')
+    src = ('def f(%s):\n    _cnt[0] += 1\n    _q = False\n    for _v in (%s):\n        if type(_v) is str:\n'
+           '            if _v == "bad": raise ValueError("bad")\n            if _v == "quiet": _q = True\n'
+           '    if _q: return None\n    _r = {%s}\n    return %s\n') % (', '.join(ps), ''.join(x + ', ' for x in seen), ', '.join(items),
+                                                                     '(_r, _cnt[0])' if counting else '_r')
     ns = {'_cnt': [0]}
+    ns.update({'_d_' + k: v for k, v in DEFAULTS[bool(sig.get('alt'))].items()})
     exec(src, ns)
     f = ns['f']
     f.counter = ns['_cnt']
@@ -86,6 +112,9 @@ def pyg():
     return P, try_value, wrapper, cache
 
 
+_DECOS = {}
+
+
 def decorator(layer):
     """the real decorator for an abstract layer [class, parameter]"""
     P, try_value, wrapper, cache = pyg()
@@ -95,12 +124,17 @@ def decorator(layer):
             return P.try_none
         if par == ["i", 0]:
             return P.try_zero
-        return try_value(value=untagx(par))
+        if par == ["l", []]:
+            return P.try_list                                 # the module-level instance: one fallback list for everybody
+        k = json.dumps(par)                                   # one decorator instance per fallback, like a module-level try_xxx
+        if k not in _DECOS:
+            _DECOS[k] = try_value(value=untagx(par))
+        return _DECOS[k]
     return {'try_back': P.try_back, 'kwargs_support': P.kwargs_support, 'cache': cache, 'loops': pyg.loops, 'pd2np': P.pd2np}[cls]
 
 
 def layer_of(kind):
-    return [CLASS_OF.get(kind, kind), ["i", 0] if kind == 'try_zero' else NONE]
+    return [CLASS_OF.get(kind, kind), ["i", 0] if kind == 'try_zero' else ["l", []] if kind == 'try_list' else NONE]
 
 
 def project(o, f):
@@ -118,7 +152,14 @@ def project(o, f):
     return chain
 
 
+def py_argspec_of(fn):
+    """Python's own word on an exec-generated function (sanity of the driver, never a verdict)"""
+    s = inspect.getfullargspec(fn)
+    return {'args': list(s.args), 'varargs': s.varargs or '', 'varkw': s.varkw or '', 'defaults': [tagx(d) for d in (s.defaults or ())]}
+
+
 def argspec_of(fn):
+    """pyg_base.getargspec - the subject"""
     P = pyg()[0]
     try:
         s = P.getargspec(fn)
@@ -136,7 +177,7 @@ def realise(cc, flip=False):
 
 
 FEATURES = ('kwargs_support', 'pd2np', 'cache', 'loops', 'try', 'extra_kw_for_varkw', 'no_first_arg', 'bad_passed', 'eager',
-            'list_tuple_twin', 'unhashable_arg')
+            'list_tuple_twin', 'unhashable_arg', 'quiet_passed', 'alt_defaults', 'mutable_fallback')
 
 
 def describe(sig, classes, cc, eager=False):
@@ -146,7 +187,8 @@ def describe(sig, classes, cc, eager=False):
             'loops': 'loops' in classes, 'try': ('try_value' in classes) or ('try_back' in classes),
             'extra_kw_for_varkw': bool(sig['varkw']) and any(n not in declared for n, _ in cc['kw']),
             'no_first_arg': not (bool(cc['pos']) or (sig['npos'] > 0 and any(n == 'a' for n, _ in cc['kw']))),
-            'bad_passed': ["s", "bad"] in (list(cc['pos']) + [v for _, v in cc['kw']]), 'eager': eager}
+            'bad_passed': ["s", "bad"] in (list(cc['pos']) + [v for _, v in cc['kw']]), 'eager': eager,
+            'quiet_passed': ["s", "quiet"] in (list(cc['pos']) + [v for _, v in cc['kw']]), 'alt_defaults': bool(sig.get('alt'))}
 
 
 def call_clause(keys):
@@ -157,7 +199,8 @@ class Reporter(object):
     """Collects the failing cases (replayed smallest first) by (clause, operation, set of features) and, at the
     end, hands ctx.violation the first case of every MINIMAL feature set: a failing case whose features
     include those of a simpler failing case of the same clause and operation is only counted.  So the
-    simplest failing input of every kind is reported, not the thousands of larger inputs that contain it."""
+    simplest failing input of every kind is reported, not the thousands of larger inputs that contain it.
+    (Cases explained by a recorded known finding are kept out of that reduction.)"""
     def __init__(self, ctx):
         self.ctx, self.counts, self.first = ctx, {}, {}
 
@@ -170,8 +213,16 @@ class Reporter(object):
             self.first[k] = (c, detail)
 
     def finish(self):
-        for (clause, op, feats), (case, detail) in self.first.items():
-            if not any(c == clause and o == op and fs < feats for (c, o, fs) in self.first):
+        from harness.core import _match
+        # cases that a recorded known finding explains go straight to ctx.violation (which lists them as known) and
+        # take no part in the reduction: a known defect must never hide another failing case
+        known = {k for k, (case, _) in self.first.items()
+                 if any(_match(kf, {'clause': k[0], 'case': case}) for kf in self.ctx.known)}
+        rest = [k for k in self.first if k not in known]
+        for k in self.first:
+            clause, op, feats = k
+            case, detail = self.first[k]
+            if k in known or not any(c == clause and o == op and fs < feats for (c, o, fs) in rest):
                 self.ctx.violation(clause, case, detail)
         if self.counts:
             self.ctx.extra['failing_cases_by_clause_op_features'] = {'%s %s %s' % (c, o, ','.join(sorted(fs))): n for (c, o, fs), n in self.counts.items()}
@@ -189,15 +240,18 @@ def s2c_bind(ctx, rep, cases):
         key = sigkey(sig)
         if key not in per_sig:
             f = base_function(sig)
-            got = argspec_of(f)
-            if got != case['argspec']:
-                raise Machinery('spec/driver disagree on the signature %r: %r vs %r' % (sig, got, case['argspec']))
+            if py_argspec_of(f) != case['argspec']:           # Python's inspect on my own function: machinery
+                raise Machinery('spec/driver disagree on the signature %r: %r vs %r' % (sig, py_argspec_of(f), case['argspec']))
+            ctx.evals += 1
+            if argspec_of(f) != case['argspec']:              # pyg_base.getargspec is the subject
+                rep('same_signature', {'part': 'bind', 'op': 'getargspec', 'kind': 'none', 'alt_defaults': bool(sig.get('alt'))}, {'sig': sig},
+                    {'expected': case['argspec'], 'observed': argspec_of(f)})
             ws = {}
-            for kind in KINDS:
+            for kind in BIND_KINDS:
                 ws[kind] = decorator(layer_of(kind))(f)
                 ctx.evals += 1
                 if argspec_of(ws[kind]) != case['argspec']:
-                    rep('same_signature', {'part': 'bind', 'op': 'getargspec', 'kind': kind}, {'sig': sig},
+                    rep('same_signature', {'part': 'bind', 'op': 'getargspec', 'kind': kind, 'alt_defaults': bool(sig.get('alt'))}, {'sig': sig},
                         {'expected': case['argspec'], 'observed': argspec_of(ws[kind])})
             per_sig[key] = (f, ws)
         f, ws = per_sig[key]
@@ -220,10 +274,11 @@ def s2c_bind(ctx, rep, cases):
             if want[0] == 'unspec':
                 continue
             w = ws[kind]
-            got = outcome(w, *args, **kwargs)
+            # the caller then mutates, in place, what it was given (not what a memo serves: MemoisedResultIsShared)
+            got = (outcome if kind == 'cache' else call_and_mutate)(w, *args, **kwargs)
             ctx.evals += 1
             if got != want:
-                keys = {'part': 'bind', 'op': 'call', 'kind': kind}
+                keys = {'part': 'bind', 'op': 'call', 'kind': kind, 'mutable_fallback': kind == 'try_list'}
                 keys.update(describe(sig, [CLASS_OF.get(kind, kind)], cc))
                 rep(call_clause(keys), keys, {'sig': sig, 'cc': cc}, {'expected': want, 'observed': got})
             if case['valid'] and j == n % len(case['outs']):      # through the wrapper: one decorator per case, in rotation
@@ -343,7 +398,8 @@ def s2c_memo(ctx, rep, cases):
         got, evals = outs[-1]
         if got != case['out'] or evals != case['evals']:
             first = case['calls'].index(case['calls'][-1]) == len(case['calls']) - 1
-            rep('memo_evaluates_once' if first else 'memo_first_result', {'part': 'memo', 'op': 'call', 'cache': True, 'first_call_of_key': first},
+            rep('memo_evaluates_once' if first else 'memo_first_result',
+                {'part': 'memo', 'op': 'call', 'cache': True, 'first_call_of_key': first, 'quiet_passed': case['out'] == NONE},
                 {'sig': case['sig'], 'calls': case['calls']}, {'expected': [case['out'], case['evals']], 'observed': [got, evals]})
         if len({json.dumps(c) for c in case['calls']}) < len(case['calls']):
             ctx.note(('memo', json.dumps(case['calls'])))
@@ -356,12 +412,15 @@ def s2c_memo(ctx, rep, cases):
 # C2S: seeded random, larger and stranger observations for Trace_Decorators
 # ------------------------------------------------------------------------------------------------
 EXTRA_KW = ['x', 'y', 'z', 'w', 'value', 'types']
-EXTRA_LAYERS = [['try_value', ["s", "failed"]], ['try_value', ["t", [["i", 1], ["i", 2]]]], ['try_value', ["i", 7]]]
+EXTRA_LAYERS = [['try_value', ["s", "failed"]], ['try_value', ["t", [["i", 1], ["i", 2]]]], ['try_value', ["i", 7]],
+                ['try_value', ["l", []]], ['try_value', ["l", [["i", 1]]]], ['try_value', ["m", [["words", ["i", 0]]]]]]   # mutable fallbacks
 
 
 def rand_sig(rng):
     npos = rng.randint(0, 4)
-    return {'npos': npos, 'ndef': rng.randint(0, npos), 'varargs': rng.random() < 0.5, 'varkw': rng.random() < 0.5}
+    ndef = rng.randint(0, npos)
+    return {'npos': npos, 'ndef': ndef, 'varargs': rng.random() < 0.5, 'varkw': rng.random() < 0.5,
+            'alt': ndef > 0 and rng.random() < 0.5}
 
 
 def rand_value(rng, depth=0):
@@ -379,7 +438,7 @@ def rand_value(rng, depth=0):
     return ["t", [rand_value(rng, depth + 1) for _ in range(rng.randint(0, 3))]]
 
 
-def rand_call(rng, sig, allow_extra_kw, value=rand_value, bad=0.15):
+def rand_call(rng, sig, allow_extra_kw, value=rand_value, bad=0.15, quiet=0.1):
     """a call that Python accepts for `sig` (or for kwargs_support(f) when extra keywords are allowed)"""
     npos, ndef = sig['npos'], sig['ndef']
     given = [i < npos - ndef or rng.random() < 0.6 for i in range(npos)]
@@ -400,6 +459,12 @@ def rand_call(rng, sig, allow_extra_kw, value=rand_value, bad=0.15):
             pos[j] = ["s", "bad"]
         else:
             kw[j - len(pos)][1] = ["s", "bad"]
+    if rng.random() < quiet and (pos or kw):                  # the base function returns None for this call
+        j = rng.randrange(len(pos) + len(kw))
+        if j < len(pos):
+            pos[j] = ["s", "quiet"]
+        else:
+            kw[j - len(pos)][1] = ["s", "quiet"]
     return {'pos': pos, 'kw': kw}
 
 
@@ -409,7 +474,7 @@ def observe_bind(rng):
     cc = rand_call(rng, sig, allow_extra_kw=sig['varkw'] or rng.random() < 0.4)
     f = base_function(sig)
     args, kwargs = realise(cc)
-    o = {'part': 'bind', 'sig': sig, 'cc': cc, 'argspec': argspec_of(f),
+    o = {'part': 'bind', 'sig': sig, 'cc': cc, 'argspec': py_argspec_of(f), 'pyg_argspec': argspec_of(f),
          'inspect': outcome(inspect.getcallargs, f, *args, **kwargs), 'self': outcome(f, *args, **kwargs),
          'getcallargs': outcome(P.getcallargs, f, *args, **kwargs)}
     try:
@@ -417,9 +482,9 @@ def observe_bind(rng):
     except Exception as e:
         o['cwc'] = ["exc", type(e).__name__]
     layers = []
-    for layer in [layer_of(k) for k in KINDS] + [rng.choice(EXTRA_LAYERS)]:
+    for layer in [layer_of(k) for k in BIND_KINDS] + [rng.choice(EXTRA_LAYERS)]:
         w = decorator(layer)(f)
-        rec = {'layer': layer, 'out': outcome(w, *args, **kwargs), 'argspec': argspec_of(w),
+        rec = {'layer': layer, 'out': (outcome if layer[0] == 'cache' else call_and_mutate)(w, *args, **kwargs), 'argspec': argspec_of(w),
                'gca': outcome(P.getcallargs, w, *args, **kwargs)}
         try:
             rec['cwc'] = outcome(P.call_with_callargs, w, P.getcallargs(w, *args, **kwargs))
@@ -445,11 +510,14 @@ def observe_hist(rng, nmax):
                            'specs': [argspec_of(o) for o in live], 'evals': f.counter[0]})
         else:
             i = rng.randint(0, len(live))
-            has_ks = i > 0 and any(c == 'kwargs_support' for c, _ in project(live[i - 1], f))
-            cc = rng.choice(plain + extra if (has_ks or sig['varkw']) else plain)
+            classes = [c for c, _ in project(live[i - 1], f)] if i > 0 else []
+            cc = rng.choice(plain + extra if ('kwargs_support' in classes or sig['varkw']) else plain)
             args, kwargs = realise(cc, flip=rng.random() < 0.5)
-            out = outcome(f if i == 0 else live[i - 1], *args, **kwargs)
+            own = 'cache' not in classes and rng.random() < 0.6   # the caller mutates what it was given (never what a memo serves)
+            out = (call_and_mutate if own else outcome)(f if i == 0 else live[i - 1], *args, **kwargs)
             events.append({'op': 'call', 'obj': i, 'cc': cc, 'out': out, 'heap': [project(o, f) for o in live], 'evals': f.counter[0]})
+            if own and out[0] in ('l', 'm'):
+                events.append({'op': 'mutate'})
     return {'part': 'hist', 'sig': sig, 'events': events}
 
 
@@ -531,20 +599,21 @@ def hist_case(o, clause_at):
     clause, _, at = clause_at.partition('@')
     if o['part'] == 'bind':
         layer = o['layers'][int(at) - 1]['layer'] if at else ['none', NONE]
-        keys = {'part': 'bind', 'op': 'c2s', 'kind': layer[0]}
+        keys = {'part': 'bind', 'op': 'c2s', 'kind': layer[0], 'mutable_fallback': layer[1][0] in ('l', 'm')}
         keys.update(describe(o['sig'], [layer[0]], o['cc']))
-        return clause, keys, {'sig': o['sig'], 'cc': o['cc']}, {k: o[k] for k in ('inspect', 'getcallargs', 'cwc')} | {'layers': [[w['layer'], w['out']] for w in o['layers']]}
+        return clause, keys, {'sig': o['sig'], 'cc': o['cc']}, {k: o[k] for k in ('inspect', 'pyg_argspec', 'getcallargs', 'cwc')} | {'layers': [[w['layer'], w['out']] for w in o['layers']]}
     i = int(at) if at else len(o['events'])
     e = o['events'][i - 1]
     if o['part'] == 'memo':
         kinds = {v[0] for v in e['cc']['pos']} | {v[0] for _, v in e['cc']['kw']}
         return clause, {'part': 'memo', 'op': 'call', 'cache': True, 'unhashable_arg': bool(kinds & {'l', 'm', 'set'}),
+                        'quiet_passed': ["s", "quiet"] in (list(e['cc']['pos']) + [v for _, v in e['cc']['kw']]),
                         'list_tuple_twin': any(same_but_list_tuple(x['cc'], e['cc']) for x in o['events'][:i - 1])}, {'sig': o['sig'], 'calls': [x['cc'] for x in o['events'][:i]]}, {'observed': [x['out'] for x in o['events'][:i]]}
     if e['op'] == 'wrap':
         return clause, {'part': 'hist', 'op': 'wrap'}, {'sig': o['sig'], 'events': [{k: v for k, v in x.items() if k != 'specs'} for x in o['events'][:i]]}, {'observed_heap': e['heap']}
     heap = [x for x in o['events'][:i] if x['op'] == 'wrap']
     chain = heap[-1]['heap'][e['obj'] - 1] if e['obj'] > 0 and heap else []
-    keys = {'part': 'hist', 'op': 'call'}
+    keys = {'part': 'hist', 'op': 'call', 'mutable_fallback': any(c == 'try_value' and p[0] in ('l', 'm') for c, p in chain)}
     keys.update(describe(o['sig'], [c for c, _ in chain], e['cc'], eager=True))
     return clause, keys, {'sig': o['sig'], 'events': [{k: v for k, v in x.items() if k != 'specs'} for x in o['events'][:i]]}, {'observed': e['out']}
 
@@ -557,7 +626,7 @@ def c2s(ctx, rep, nbind, nhist, nmemo):
     obs = [observe_bind(rng) for _ in range(nbind)]
     obs += [observe_hist(rng, 18 if ctx.quick else 30) for _ in range(nhist)]
     obs += [observe_memo(rng, 20 if ctx.quick else 40) for _ in range(nmemo)]
-    ctx.evals += sum(1 + 3 * len(o['layers']) if o['part'] == 'bind' else len(o['events']) for o in obs)
+    ctx.evals += sum(1 + 3 * len(o['layers']) if o['part'] == 'bind' else sum(1 for e in o['events'] if e.get('op') != 'mutate') for o in obs)
     nreal = len(obs)
     obs += canaries(obs)
     if len(obs) != nreal + 3:
@@ -589,9 +658,10 @@ def c2s(ctx, rep, nbind, nhist, nmemo):
 
 # ------------------------------------------------------------------------------------------------
 def run(ctx):
-    ctx.rule = ('S2C: (a) every signature (npos 0..4 x defaults x *args x **kw = 60) x every valid call (<= npos+2 positional, keywords '
-                'from the parameters and x, y; every split of an argument set) through getcallargs / call_with_callargs / each of 7 '
-                'decorators / getargspec; (b) every history of Wrap steps TLC enumerates, replayed on real decorators with all live objects '
+    ctx.rule = ('S2C: (a) every signature (npos 0..4 x defaults x *args x **kw = 60, plus the 40 twins that share a code object and differ '
+                'only in their default values) x every valid call (<= npos+2 positional, keywords from the parameters and x, y; every split '
+                'of an argument set) through pyg getargspec / getcallargs / call_with_callargs / each of 8 decorators (try_list: the caller '
+                'mutates every result it is given, in place); (b) every history of Wrap steps TLC enumerates, replayed on real decorators with all live objects '
                 'projected and called (older objects after newer ones exist; schedules late/eager); (c) every call sequence on cache(f) '
                 'with a counting f.  C2S: random signatures, calls with strange values, longer mixed wrap/call histories, memo sequences '
                 'with unhashable keys, validated by Trace_Decorators.  Non-trivial = a call using keywords/extras/defaults, a history in '
@@ -650,6 +720,8 @@ def run(ctx):
     ctx.exhaustive = False
     ctx.assumptions += [
         'parameters are named a, b, c, d, *args, **kw; keyword-only parameters are outside the quantifier',
+        'the sanity of the exec-generated functions is checked with Python inspect only; pyg_base.getargspec/getcallargs are always the subject',
+        'the caller mutates in place what calls return, except results of chains with a cache layer (MemoisedResultIsShared); the base function returns None for the value "quiet"',
         'a keyword named axis (a parameter of loops) or self is never passed; loops = loop(list, dict) and the first argument is never a list/dict; no pandas input',
         'try_none and try_zero are one class with a parameter: wrapping with one over the other keeps the newer (MergeSameClass, documented behaviour)',
         'try_back without a first argument: outcome unspecified (NoFirstArgument); unhashable cache keys may be re-evaluated (Uncached); wrappers built from a cached function may share its memo (SharedMemo)',
